@@ -173,17 +173,14 @@ func (cl *Loader) load(file string) (config map[string]interface{}, err error) {
 				if cl.imports[importFile] {
 					continue
 				}
-				fi, err := os.Stat(importFile)
-				if err != nil {
-					return nil, fmt.Errorf("%s: %v", importFile, err)
+				fi, statErr := os.Stat(importFile)
+				if statErr != nil {
+					return nil, fmt.Errorf("%s: %v", importFile, statErr)
 				}
 				if !fi.IsDir() {
 					raw, err = cl.load(importFile)
 				} else {
 					raw, err = cl.loadDir(importFile)
-				}
-				if err != nil {
-					logrus.Error(err)
 				}
 			}
 			if err != nil {
